@@ -988,6 +988,9 @@ func runHist(t *testing.T, seed int64, n int, out *Out) {
 				// was imported (id counters).
 				mods := []string{"tradeshield", "leveragelp", "perpetual", "amm", "commitment", "masterchef", "poolaccounted", "tier", "assetprofile", "oracle", "burner", "tokenomics", "parameter", "estaking"}
 				name := mods[h.r.Intn(len(mods))]
+				if fm := map[string]string{"ts.": "tradeshield", "perp.": "perpetual", "lp.": "leveragelp", "cm.": "commitment", "amm.": "amm", "ss.": "stablestake"}[h.focus]; fm != "" && h.r.Intn(2) == 0 {
+					name = fm // the module the history concentrates on
+				}
 				done := false
 				w.Seed(func(ctx sdk.Context) {
 					cctx, write := ctx.CacheContext()
